@@ -4,7 +4,7 @@
     that cannot be decoded invalidates every live query on its table.
     Model: Sql/Live.v on top of the row codec Sql/Codec.v; proofs: Sql/LiveProofs.v. *)
 From Coq Require Import List ZArith String.
-From Thunder Require Import Sql.Codec Sql.CodecProofs Sql.Live Sql.LiveProofs.
+From Thunder Require Import Sql.Codec Sql.CodecProofs Sql.Live Sql.LiveProofs Sql.LiveTx Sql.LiveTxProofs.
 Import ListNotations.
 
 (** Key lemma: the in-memory row tester agrees with SQL WHERE (three-valued logic, [IS NULL] for NULL
@@ -78,6 +78,66 @@ Theorem faithful_event_decodes_to_the_write :
 Proof. exact LiveProofs.faithful_event_decodes. Qed.
 Print Assumptions faithful_event_decodes_to_the_write.
 
+(** * Transactions, multi-row events, the update queue, table versions and schema changes (Sql/LiveTx.v)
+
+    Every interleaving (list of labels) of Register / Read / Rerun, Commit of a transaction (a list of
+    rows events, each a list of inserts / deletes / updates, each well-formed or not), binlog noise,
+    ALTER TABLE, Poll (one iteration of RunPollLoop: table-map items forget cached column maps, rows
+    items are decoded with the cached map or the one information_schema gives at that moment, the update
+    is queued) and Apply (the tracker takes the queue's head): if tables are altered only while
+    RunPollLoop has read the whole binlog ([safe = true], what livesql asks of its users), then once
+    the binlog is read and applied and every live query has completed a run whose registration stands,
+    each holds what the database now returns for its filter. *)
+Theorem quiescent_live_queries_are_current_across_transactions_and_schema_changes :
+  forall schema layout d qs ls s,
+    trun schema layout true (tinitial d qs) ls = Some s -> tquiescent s = true ->
+    Forall (fun q => q_held q = tsel schema q (t_db s)) (t_queries s).
+Proof. exact tquiescent_current. Qed.
+Print Assumptions quiescent_live_queries_are_current_across_transactions_and_schema_changes.
+
+(** Without that discipline the statement is false, as binlog.go l.405-416 says: an event written before
+    an ALTER that keeps the column count and read after it is decoded with the new column order. *)
+Theorem alter_with_unread_events_refuted :
+  exists s, trun toy2_schema toy2_layout false
+                 (tinitial [] [("users"%string, [("id"%string, Dyn (BInt 64) false (FVal (GInt 1)))])]) race_run = Some s /\
+            tquiescent s = true /\
+            exists q, In q (t_queries s) /\ q_held q <> tsel toy2_schema q (t_db s).
+Proof. exact LiveTxProofs.alter_with_unread_events_refuted. Qed.
+Print Assumptions alter_with_unread_events_refuted.
+
+(** The abstract decoding of that system is what the function-level model of RunPollLoop / getColumnMap /
+    parseBinlogRowsEvent (Sql/Live.v [poll_event], run against the code on every history) does: a
+    well-formed multi-row event whose images are those of the row changes [ds] under the column list
+    [cols] yields exactly [ds], with the column map of [cols] cached or fetched on a miss ... *)
+Theorem faithful_rows_event_decodes_to_its_row_changes :
+  forall fx e db schema st ans tbl t cols k ds rows,
+    env_laws e -> slookup tbl schema = Some t -> rows_of e t cols k ds rows ->
+    (slookup tbl (p_cmaps st) = Some (column_map t cols) \/
+     (slookup tbl (p_cmaps st) = None /\ exists ans', ans = (tbl, cols) :: ans')) ->
+    exists st' ans', poll_event fx e db schema st ans (PRows db tbl k rows) = (st', ans', PUpdate (mk_update tbl ds false)) /\
+                     slookup tbl (p_cmaps st') = Some (column_map t cols).
+Proof. exact faithful_rows_event_decodes. Qed.
+Print Assumptions faithful_rows_event_decodes_to_its_row_changes.
+
+(** ... an event the cached column map cannot decode reaches the tracker with [err] set (C07-fix-1) ... *)
+Theorem undecodable_rows_event_reaches_the_tracker_as_error :
+  forall e db schema st ans tbl t cm k rows,
+    slookup tbl schema = Some t -> slookup tbl (p_cmaps st) = Some cm ->
+    parse_rows_event e (t, fst cm, snd cm) k rows = Err ->
+    poll_event true e db schema st ans (PRows db tbl k rows) = (st, ans, PUpdate (mk_update tbl [] true)).
+Proof. exact undecodable_rows_event_is_err. Qed.
+Print Assumptions undecodable_rows_event_reaches_the_tracker_as_error.
+
+(** ... and a table map with a new table id drops the table's column map, one with the remembered id
+    changes nothing. *)
+Theorem table_map_with_new_id_flushes_the_column_map :
+  forall e db schema st ans tbl id,
+    let '(st', _, _) := poll_event true e db schema st ans (PTableMap db tbl id) in
+    (slookup tbl (p_versions st) = Some id -> st' = st) /\
+    (slookup tbl (p_versions st) <> Some id -> slookup tbl (p_cmaps st') = None /\ slookup tbl (p_versions st') = Some id).
+Proof. exact table_map_flushes_column_map. Qed.
+Print Assumptions table_map_with_new_id_flushes_the_column_map.
+
 (** Non-vacuity: a history with a write committed between registration and read, delayed delivery, a
     re-run, and quiescence at the end. *)
 Example quiescent_history_exists :
@@ -91,3 +151,21 @@ Example quiescent_history_exists :
   | None => False
   end.
 Proof. vm_compute. repeat split; reflexivity. Qed.
+
+(** Non-vacuity of the second system: a transaction of two events (one with two row changes), reads between
+    polling and applying, noise, an ALTER once the binlog is read, an event under the new version (cached
+    column map dropped by the new table id), an undecodable event, re-runs; quiescent at the end. *)
+Example transaction_history_exists :
+  match trun toy2_schema toy2_layout true
+             (tinitial [] [("users"%string, [("id"%string, Dyn (BInt 64) false (FVal (GInt 1)))])]) long_run with
+  | Some s => tquiescent s = true /\ map q_held (t_queries s) = [[[FVal (GInt 1); FVal (GInt 9)]]] /\
+              t_cmaps s = [("users"%string, 1); ("other"%string, 0)]
+  | None => False
+  end.
+Proof. exact long_run_quiescent. Qed.
+
+(** The refuting history is not a run of the safe system: its ALTER is not enabled. *)
+Example racing_alter_is_not_safe :
+  trun toy2_schema toy2_layout true
+       (tinitial [] [("users"%string, [("id"%string, Dyn (BInt 64) false (FVal (GInt 1)))])]) race_run = None.
+Proof. exact race_run_not_safe. Qed.
